@@ -75,7 +75,7 @@ namespace awkward {
 
   int64_t
   RecordBuilder::length() const {
-    return length_;
+    return (length_ < 0 ? 0 : length_);
   }
 
   void
